@@ -1,54 +1,73 @@
-"""Two OVERLAPPING client requests on the fake database: a sound, deliberately coarse model of InnoDB REPEATABLE READ.
+"""Two OVERLAPPING requests / messages on the fake database: a sound, deliberately coarse model of InnoDB REPEATABLE READ.
 
 A history op  {"op": "race", "first": OP_A, "second": OP_B, "pause": k}  (runner.Live.step) runs the real handler of OP_A as an
-asyncio task until it is about to issue its (k+1)-th SQL statement, i.e. after k statements ("START TRANSACTION" / COMMIT /
-ROLLBACK are not counted; the k statements may span several transactions of the handler), PROVIDED those k statements were all
-reads (top-level SELECTs, locking or not; no INSERT / UPDATE / DELETE / CALL): then the handler of OP_B runs -- to completion
-unless it needs a lock A holds --, then A continues.  The only interleavings executed are therefore
+asyncio task until it is about to issue its (k+1)-th SQL statement, i.e. after k statements, PROVIDED those k statements were all
+reads (SELECTs, locking or not, SET x = (SELECT ..), cursor OPEN; no INSERT / UPDATE / DELETE): then the handler of OP_B runs -- to
+completion unless it needs a lock A holds --, then A continues.
+
+What counts as a statement: every statement the handler sends through its cursor, EXCEPT transaction control and CALL; and,
+for a `CALL proc(..)`, every statement of the procedure body as the routine interpreter reaches it (SELECT [INTO], SET, INSERT,
+UPDATE, DELETE, OPEN cursor; nested CALLs are entered, their statements counted the same way; the bodies of triggers and stored
+functions belong to the statement that fires / calls them).  So A can be suspended INSIDE a stored procedure (minisql's
+FullCompiler.statement gates the statements of procedure bodies through `engine.stmt_hook`), and the k statements may span
+several transactions of the handler.  The only interleavings executed are therefore
 
         A: read-only prefix of k statements | B: whole request | A: rest          (B not blocked by a lock of A)
         A: read-only prefix | B: statements before the blocked one | A: rest | B: blocked statement and rest   (B blocked)
 
 No schedule in which BOTH transactions have pending (uncommitted) writes is explored; the engine has no isolation model for that.
 
+Mechanics: while a race runs, every statement of a racing connection is executed in a worker thread (so that the synchronous
+engine can be parked in the middle of a routine); the two threads never run at the same time -- a party hands over only by
+parking on its own threading.Event inside `_yield` (or by finishing), and the controller coroutine starts / resumes the other one.
+
 What makes the executed schedule a schedule that MySQL 8 / InnoDB at REPEATABLE READ can produce with the same reads:
 
  * Lock table, table-granular (coarser than InnoDB's record / gap / next-key locks, so it can only serialise MORE: a statement
    that waits here until the other transaction ends is, for InnoDB, the same statement arriving later):
      - `SELECT .. FOR UPDATE` takes X, `SELECT .. LOCK IN SHARE MODE / FOR SHARE` takes S on EVERY base table the statement mentions
-       (also those in subqueries / derived tables); locks are held until the transaction ends;
+       (also those in subqueries / derived tables); locks are held until the transaction ends (COMMIT / ROLLBACK, also the
+       procedure's own);
      - a statement of the running party is checked against the locks of the other party BEFORE it executes, with its static
-       may-touch footprint (tables written: INSERT/UPDATE/DELETE targets, also inside the called procedure, fired triggers and stored
+       may-touch footprint (tables written: INSERT/UPDATE/DELETE targets, also inside fired triggers and called stored
        functions, transitively; tables read: everything mentioned + foreign-key parents and children of the written tables):
        a locking read in S mode conflicts with X; a locking read in X mode and every written table conflict with S and X; the tables
-       read by a DML statement are treated as S reads (InnoDB: INSERT..SELECT sources, FK checks), by a CALL as X reads;
+       read by a DML statement are treated as S reads (InnoDB: INSERT..SELECT sources, FK checks; X when a derived table or routine in
+       it says FOR UPDATE);
      - a plain (non-locking) SELECT never blocks.
    A blocked party that already has uncommitted writes, or a deadlock (the resumed party needs a lock of the blocked one), cannot
-   be modelled (with table granularity it need not be a deadlock for InnoDB): the race is INCONCLUSIVE, the database is restored to
-   its state before the race and the two requests are run serially (reported as mode 'serial').
+   be modelled (with table granularity it need not be a deadlock for InnoDB): the race is INCONCLUSIVE, the database (and the
+   driver's in-memory instance objects) are restored to their state before the race and the two ops are run serially (mode 'serial').
  * Consistent reads: a transaction's read view is created by its first plain SELECT and all later plain SELECTs of that
    transaction see that snapshot (plus the transaction's own writes); locking reads, the scans of UPDATE/DELETE, INSERT..SELECT
    sources and constraint checks read the latest committed rows.  Here: at its first plain SELECT a racing transaction copies all
-   tables; a later plain top-level SELECT that mentions a table the OTHER party committed to after that copy reads the copy of
-   that table (swapped in for the duration of the statement) -- unless the reader itself wrote that table after the copy
-   (merged view not modelled: INCONCLUSIVE).  Plain SELECTs INSIDE a procedure / trigger / function of a transaction whose
-   snapshot is stale with respect to a table they mention: INCONCLUSIVE as well.
+   tables; a later plain SELECT (top level or in a procedure body) that mentions a table the OTHER party committed to after that
+   copy reads the copy of that table (swapped in for the duration of the statement) -- unless the reader itself wrote that table
+   after the copy (merged view not modelled: INCONCLUSIVE).  Reads inside a trigger / stored function fired by a DML statement of a
+   transaction whose snapshot is stale with respect to a table they mention: INCONCLUSIVE as well.  Values a procedure keeps in
+   local variables are of course kept (that is the point: a decision taken on a value read without a lock).
+ * A subquery-bearing condition of IF / WHILE / DECLARE .. DEFAULT in a procedure body cannot be gated: INCONCLUSIVE (none in batch/sql).
  * Auto-increment values are not transactional (as in InnoDB); `random` / RAND() streams are shared (only token shards,
    which the observable projection sums, depend on them).
 
-Nothing here is used unless a history contains a race op: FakeCursor calls `before`/`after` only when the connection has a party.
+Nothing here is used unless a history contains a race op: FakeCursor goes through `execute` only when the connection has a party,
+and `engine.stmt_hook` is None otherwise.
 """
 import asyncio
+import concurrent.futures
 import contextvars
 import re
+import threading
 
 from minisql import ast as A
 from minisql.parser import parse_statements
 
 PARTY = contextvars.ContextVar('batchdb_race_party', default=None)
 
-RACE_OPS = ('create_batch', 'create_update', 'create_groups', 'create_jobs', 'commit')
-MAX_PAUSE = 40
+CLIENT_OPS = ('create_batch', 'create_update', 'create_groups', 'create_jobs', 'commit')
+MESSAGE_OPS = ('schedule_job', 'unschedule_job', 'mark_creating', 'mark_started', 'mark_complete', 'deactivate_instance')
+RACE_OPS = CLIENT_OPS + MESSAGE_OPS
+MAX_PAUSE = 60
 WAIT_SECONDS = 60
 
 _RE_X = re.compile(r'\bFOR\s+UPDATE\b', re.I)
@@ -63,26 +82,32 @@ class RaceInconclusive(BaseException):
         self.reason = reason
 
 
+class RaceAbort(BaseException):
+    """Raised in a parked party when the race is abandoned."""
+
+
 # ----------------------------------------------------------------------------------------------------------------------
 # static may-touch footprint of a statement
 # ----------------------------------------------------------------------------------------------------------------------
 class Footprint:
-    __slots__ = ('kind', 'reads', 'writes', 'routine_reads', 'x_reads')
+    __slots__ = ('kind', 'reads', 'writes', 'routine_reads', 'x_reads', 'xtables', 'lock')
 
     def __init__(self, kind):
-        self.kind = kind              # 'tx' | 'read' | 'readS' | 'readX' | 'write'
+        self.kind = kind              # 'tx' | 'call' | 'control' | 'read' | 'readS' | 'readX' | 'write'
         self.reads = set()            # every table mentioned or checked (includes writes)
         self.writes = set()
-        self.routine_reads = set()    # tables read inside procedure / trigger / function bodies (possibly consistent reads)
-        self.x_reads = False          # reads must be treated as X (CALL, or a routine body with FOR UPDATE)
+        self.routine_reads = set()    # tables read inside trigger / function bodies (possibly consistent reads)
+        self.x_reads = False          # ALL reads must be treated as X (statement outside the analysed subset)
+        self.xtables = set()          # tables read by a SELECT .. FOR UPDATE nested in the statement (derived table, trigger, function)
+        self.lock = None              # strongest locking clause of the statement's own SELECTs: None | 'share' | 'update'
 
 
-def _walk(engine, node, fp, in_routine, seen):
+def _walk(engine, node, fp, in_routine, seen, mode=None):
     if node is None or isinstance(node, (str, int, float, bool)):
         return
     if isinstance(node, (list, tuple)):
         for x in node:
-            _walk(engine, x, fp, in_routine, seen)
+            _walk(engine, x, fp, in_routine, seen, mode)
         return
     if not isinstance(node, A.Node):
         return
@@ -91,6 +116,18 @@ def _walk(engine, node, fp, in_routine, seen):
         fp.reads.add(t)
         if in_routine:
             fp.routine_reads.add(t)
+        if mode == 'update':
+            fp.xtables.add(t)
+        return
+    if isinstance(node, A.Select):
+        lk = getattr(node, 'lock', None)
+        if lk:
+            if lk == 'update' or mode is None:
+                mode = lk                                   # a nested SELECT inherits the stronger clause (conservative)
+            if not in_routine and (lk == 'update' or fp.lock is None):
+                fp.lock = lk
+        for f in node.__slots__:
+            _walk(engine, getattr(node, f, None), fp, in_routine, seen, mode)
         return
     if isinstance(node, A.Insert):
         fp.writes.add(node.table.lower())
@@ -111,7 +148,7 @@ def _walk(engine, node, fp, in_routine, seen):
         if ('FUNCTION', name) in engine.schema.routines:
             _routine(engine, 'FUNCTION', name, fp, seen)
     for f in node.__slots__:
-        _walk(engine, getattr(node, f, None), fp, in_routine, seen)
+        _walk(engine, getattr(node, f, None), fp, in_routine, seen, mode)
 
 
 def _routine(engine, kind, lname, fp, seen):
@@ -121,10 +158,7 @@ def _routine(engine, kind, lname, fp, seen):
     rdef = engine.schema.routines.get((kind, lname))
     if rdef is None:
         return
-    text = getattr(rdef.ast, 'text', None) or ''
-    if _RE_X.search(text) or _RE_S.search(text):
-        fp.x_reads = True
-    _walk(engine, rdef.ast.body, fp, True, seen)
+    _walk(engine, rdef.ast.body, fp, True, seen, None)
 
 
 def _close(engine, fp, seen):
@@ -149,43 +183,64 @@ def _close(engine, fp, seen):
                     _routine(engine, 'TRIGGER', n, fp, seen)
 
 
-def footprint(engine, sql, with_params):
-    cache = engine.__dict__.setdefault('_race_footprints', {})
-    key = (sql, with_params)
-    fp = cache.get(key)
-    if fp is not None:
-        return fp
-    asts, _n = parse_statements(sql, with_params=with_params)
-    node = asts[0] if len(asts) == 1 else None
+def node_footprint(engine, node, sql=None):
+    """Footprint of one statement given as AST (top-level statement or statement of a procedure body)."""
     if isinstance(node, (A.StartTx, A.Commit, A.Rollback)):
-        fp = Footprint('tx')
-    elif isinstance(node, A.Select) or isinstance(node, A.SetStmt):
-        if _RE_X.search(sql):
-            fp = Footprint('readX')
-        elif _RE_S.search(sql):
-            fp = Footprint('readS')
+        return Footprint('tx')
+    if isinstance(node, A.Call):
+        return Footprint('call')             # entered: its statements are gated one by one
+    seen = set()
+    if isinstance(node, (A.If, A.While, A.Declare)):
+        fp = Footprint('control')
+        if isinstance(node, A.If):
+            conds = [b[0] for b in node.branches]
+        elif isinstance(node, A.While):
+            conds = [node.cond]
         else:
-            fp = Footprint('read')
-        seen = set()
+            conds = [node.default]
+        _walk(engine, conds, fp, False, seen)
+        return fp
+    if isinstance(node, (A.Select, A.SetStmt, A.Return)):
+        fp = Footprint('read')
         _walk(engine, node, fp, False, seen)
+        if fp.lock == 'update' or (sql is not None and _RE_X.search(sql)):
+            fp.kind = 'readX'
+        elif fp.lock == 'share' or (sql is not None and _RE_S.search(sql)):
+            fp.kind = 'readS'
         if fp.writes:                  # a stored function with side effects: treat the statement as a write
             fp.kind = 'write'
             fp.x_reads = True
             _close(engine, fp, seen)
-    else:
-        fp = Footprint('write')
-        seen = set()
-        if node is None:
-            fp.x_reads = True
-            fp.reads = set(engine.tables)
-            fp.writes = set(engine.tables)
-        else:
-            _walk(engine, node, fp, False, seen)
-            if isinstance(node, A.Call):
-                fp.x_reads = True
-            _close(engine, fp, seen)
-    cache[key] = fp
+        return fp
+    fp = Footprint('write')
+    if node is None or not isinstance(node, (A.Insert, A.Update, A.Delete)):
+        fp.x_reads = True
+        fp.reads = set(engine.tables)
+        fp.writes = set(engine.tables)
+        return fp
+    _walk(engine, node, fp, False, seen)
+    _close(engine, fp, seen)
     return fp
+
+
+def footprint(engine, sql, with_params):
+    cache = engine.__dict__.setdefault('_race_footprints', {})
+    key = (sql, with_params)
+    fp = cache.get(key)
+    if fp is None:
+        asts, _n = parse_statements(sql, with_params=with_params)
+        fp = node_footprint(engine, asts[0] if len(asts) == 1 else None, sql)
+        cache[key] = fp
+    return fp
+
+
+def inner_footprint(engine, node):
+    cache = engine.__dict__.setdefault('_race_node_footprints', {})
+    ent = cache.get(id(node))
+    if ent is None or ent[0] is not node:
+        ent = (node, node_footprint(engine, node))
+        cache[id(node)] = ent
+    return ent[1]
 
 
 # ----------------------------------------------------------------------------------------------------------------------
@@ -195,11 +250,12 @@ class Party:
     def __init__(self, name):
         self.name = name
         self.state = 'new'            # new | running | paused | blocked | done
-        self.n = 0                    # SQL statements issued so far (tx control not counted)
+        self.n = 0                    # SQL statements issued so far (tx control / CALL not counted)
         self.kinds = []               # their kinds (for the report: which pause points are admissible)
         self.wrote = False
         self.locks = {}               # table -> 'S' | 'X'   (current transaction)
-        self.gate = asyncio.Event()
+        self.gate = threading.Event()
+        self.cancelled = False
         self.snap = None              # table -> [row copies] taken at the first plain SELECT of the current transaction
         self.snap_commit = 0
         self.written_after_snap = set()
@@ -208,49 +264,147 @@ class Party:
         self.result = None
         self.error = None
         self.stale_reads = 0
+        self.in_proc = 0              # statements gated inside procedure bodies
 
 
 class RaceControl:
-    def __init__(self, engine, k, on_first_done=None):
+    def __init__(self, engine, k, on_first_done=None, on_run=None):
         self.engine = engine
         self.k = k
         self.first = Party('first')
         self.second = Party('second')
         self.yielded = asyncio.Event()
+        self.loop = None
+        self.pool = concurrent.futures.ThreadPoolExecutor(max_workers=4, thread_name_prefix='race')
         self.commits = []             # [(party, frozenset(tables))] in commit order
         self.order = []               # completion order of the two requests
         self.events = []
         self.paused = False
+        self.paused_in_proc = False
         self.admissible = True
         self.blocked_on = None
         self.inconclusive = None
         self.on_first_done = on_first_done
+        self.on_run = on_run          # called with the party that starts / resumes running (virtual clock of its op)
 
     def other(self, p):
         return self.second if p is self.first else self.first
 
-    # ---- called from fakedb ------------------------------------------------------------------------------------------
-    async def before(self, conn, sql, args):
+    # ---- called from fakedb (event-loop thread) ------------------------------------------------------------------------
+    async def execute(self, conn, sql, args, run):
+        """One statement of a racing connection: gate + execution in a worker thread (it may park in there)."""
+        return await asyncio.get_running_loop().run_in_executor(self.pool, self._exec_sync, conn, sql, args, run)
+
+    def end_tx(self, conn):
+        if conn.party is not None:
+            self._end_tx(conn.party)
+
+    # ---- worker thread -------------------------------------------------------------------------------------------------
+    def _exec_sync(self, conn, sql, args, run):
         p = conn.party
         fp = footprint(self.engine, sql, args is not None)
         if fp.kind == 'tx':
             if re.match(r'\s*START\b', sql, re.I):
                 self._begin_tx(p)
-            return None
+            return run(sql, args)
+        if fp.kind == 'call':
+            return run(sql, args)              # the statements of the body pass `inner`
+        token = self._gate(p, conn._sess, fp, False)
+        try:
+            return run(sql, args)
+        finally:
+            self._after(token)
+
+    def _sub(self, node, env, fn, p, kind):
+        """A statement inside a TRIGGER / FUNCTION body (part of the statement that fired / called it: no pause point, no lock check --
+        the enclosing statement was checked with the routine's whole footprint).  Whether a plain SELECT there is a consistent read
+        (read view of the transaction; binlog_format=ROW) or reads the latest committed rows (statement-based logging takes locks) depends
+        on the server configuration: under a stale snapshot the statement is evaluated under BOTH views and must give the same result."""
+        if p.snap is None or isinstance(node, (A.Insert, A.Update, A.Delete, A.StartTx, A.Commit, A.Rollback)):
+            return fn(env)
+        fp = inner_footprint(self.engine, node)
+        stale = self._stale(p) & fp.reads
+        if not stale:
+            return fn(env)
+        if fp.kind == 'control':
+            raise RaceInconclusive(f'{p.name}: condition of {type(node).__name__} in a {kind} reads {sorted(stale)} under a stale snapshot')
+        if fp.kind in ('readS', 'readX'):
+            return fn(env)                     # a locking read reads the latest committed rows
+        fr, sess = env.frame, env.sess
+        views = {name: self._view(p, sess, name) for name in sorted(stale)}
+
+        def capture():
+            return (list(fr.vars), list(fr.new) if fr.new is not None else None, dict(sess.uvars), sess.row_count)
+        saved = capture()
+        swapped = []
+        for name in sorted(stale):
+            t = self.engine.tables[name]
+            swapped.append((t, t.rows, t._hidx))
+            t.rows = views[name]
+            t._hidx = {}
+        try:
+            r1 = fn(env)
+        finally:
+            for t, rows, hidx in swapped:
+                t.rows = rows
+                t._hidx = hidx
+        s1 = capture()
+        fr.vars[:] = saved[0]
+        if fr.new is not None:
+            fr.new[:] = saved[1]
+        sess.uvars.clear()
+        sess.uvars.update(saved[2])
+        sess.row_count = saved[3]
+        r2 = fn(env)
+        if r1 != r2 or s1 != capture():
+            raise RaceInconclusive(f'{p.name}: read of {sorted(stale)} inside a {kind} differs between the snapshot and the latest committed rows')
+        p.stale_reads += 1
+        return r2
+
+    def inner(self, node, env, fn, kind='PROCEDURE'):
+        """engine.stmt_hook: a statement of a routine body is about to run (any thread; parties run in worker threads)."""
+        sess = env.sess
+        p = getattr(sess, 'race_party', None)
+        if p is None:
+            return fn(env)
+        if kind != 'PROCEDURE':
+            return self._sub(node, env, fn, p, kind)
+        fp = inner_footprint(self.engine, node)
+        if fp.kind == 'tx':
+            if isinstance(node, A.StartTx):
+                self._begin_tx(p)
+                return fn(env)
+            r = fn(env)
+            self._end_tx(p)
+            return r
+        if fp.kind == 'call':
+            return fn(env)
+        if fp.kind == 'control':
+            if fp.reads:
+                raise RaceInconclusive(f'{p.name}: condition of {type(node).__name__} reads {sorted(fp.reads)} (not gated)')
+            return fn(env)
+        token = self._gate(p, sess, fp, True)
+        try:
+            return fn(env)
+        finally:
+            self._after(token)
+
+    def _gate(self, p, sess, fp, in_proc):
         if p is self.first and not self.paused and self.admissible and p.n == self.k:
             if p.wrote:
                 self.admissible = False
                 self.events.append(f'first: pause point {self.k} is after a write ({p.kinds}): not paused')
             else:
                 self.paused = True
-                self.events.append(f'first: paused after {p.n} statements {p.kinds}')
-                await self._yield(p, 'paused')
+                self.paused_in_proc = in_proc
+                self.events.append(f'first: paused after {p.n} statements {p.kinds}' + (' (inside a procedure)' if in_proc else ''))
+                self._yield(p, 'paused')
         o = self.other(p)
         while True:
             t = self._conflict(fp, o)
             if t is None:
                 break
-            if conn._sess.undo.entries:
+            if sess.undo.entries:
                 raise RaceInconclusive(f'{p.name} blocked on {t} with uncommitted writes')
             if o.state == 'blocked':
                 raise RaceInconclusive(f'lock cycle: {p.name} needs {t} held by blocked {o.name} (need not be a deadlock for InnoDB)')
@@ -258,7 +412,7 @@ class RaceControl:
                 raise AssertionError('a finished party still holds locks')
             self.blocked_on = t
             self.events.append(f'{p.name}: statement {p.n + 1} ({fp.kind}) blocked on {t} held {o.locks[t]} by {o.name}')
-            await self._yield(p, 'blocked')
+            self._yield(p, 'blocked')
         # locks
         if fp.kind == 'readS':
             for t in fp.reads:
@@ -268,7 +422,7 @@ class RaceControl:
                 p.locks[t] = 'X'
         elif fp.kind == 'write':
             for t in fp.reads:
-                if fp.x_reads:
+                if fp.x_reads or t in fp.xtables:
                     p.locks[t] = 'X'
                 else:
                     p.locks.setdefault(t, 'S')
@@ -282,31 +436,53 @@ class RaceControl:
                 p.snap_commit = len(self.commits)
                 p.written_after_snap = set()
             stale = self._stale(p) & fp.reads
+            views = {name: self._view(p, sess, name) for name in sorted(stale)}
             for name in sorted(stale):
-                if name in p.written_after_snap:
-                    raise RaceInconclusive(f'{p.name}: consistent read of {name}, written by both transactions (merged view not modelled)')
                 t = self.engine.tables[name]
                 token['swapped'].append((t, t.rows, t._hidx))
-                t.rows = p.snap[name]
+                t.rows = views[name]
                 t._hidx = {}
                 p.stale_reads += 1
             if stale:
                 self.events.append(f'{p.name}: statement {p.n + 1} reads its snapshot of {sorted(stale)}')
         elif fp.kind == 'write':
-            if p.snap is not None:
-                bad = self._stale(p) & fp.routine_reads
-                if bad:
-                    raise RaceInconclusive(f'{p.name}: routine-internal read of {sorted(bad)} under a stale snapshot')
+            # (reads inside the triggers / functions this statement fires: checked one by one in `_sub`)
             token['versions'] = {name: t.version for name, t in self.engine.tables.items()}
         p.n += 1
+        p.in_proc += in_proc
         p.kinds.append(fp.kind)
         if fp.kind == 'write':
             p.wrote = True
         return token
 
-    def after(self, conn, token):
-        if token is None:
-            return
+    def _view(self, p, sess, name):
+        """The rows of table `name` a consistent read of party p sees: its snapshot, except that the rows p itself wrote in this
+        transaction (its undo log) are seen in their current version (own inserts / updates visible, own deletes gone)."""
+        snap = p.snap[name]
+        if name not in p.written_after_snap and name not in p.tx_written:
+            return snap
+        t = self.engine.tables[name]
+        if t.pk_idxs is None:
+            raise RaceInconclusive(f'{p.name}: consistent read of {name} (no primary key), written by both transactions')
+        live, gone = {}, set()
+        for kind, tab, row, old in sess.undo.entries:
+            if tab is not t:
+                continue
+            if kind == 'i' or kind == 'u':
+                if kind == 'u' and t.key_of(old, t.pk_idxs) != t.key_of(row, t.pk_idxs):
+                    raise RaceInconclusive(f'{p.name}: consistent read of {name} after a primary-key update of its own')
+                live[id(row)] = row
+            elif kind == 'd':
+                gone.add(t.key_of(row, t.pk_idxs))
+                live.pop(id(row), None)
+        current = {id(r) for r in t.rows}
+        mine = {t.key_of(r, t.pk_idxs): r for r in live.values() if id(r) in current}
+        out = [r for r in snap if t.key_of(r, t.pk_idxs) not in mine and t.key_of(r, t.pk_idxs) not in gone]
+        out += list(mine.values())
+        out.sort(key=lambda r: t.key_of(r, t.pk_idxs))
+        return out
+
+    def _after(self, token):
         for t, rows, hidx in token['swapped']:
             t.rows = rows
             t._hidx = hidx
@@ -319,13 +495,18 @@ class RaceControl:
                     if p.snap is not None:
                         p.written_after_snap.add(name)
 
-    def end_tx(self, conn):
-        p = conn.party
-        if p is None:
-            return
-        if p.tx_written:
-            self.commits.append((p, frozenset(p.tx_written)))
-        self._begin_tx(p)
+    def _yield(self, p, state):
+        """Park this worker thread until the controller resumes the party."""
+        p.state = state
+        p.gate.clear()
+        self.loop.call_soon_threadsafe(self.yielded.set)
+        if not p.gate.wait(4 * WAIT_SECONDS):
+            raise RaceAbort('parked party was never resumed')
+        if p.cancelled:
+            raise RaceAbort('race abandoned')
+        p.state = 'running'
+        if self.on_run is not None:
+            self.on_run(p)
 
     # ---- internals ---------------------------------------------------------------------------------------------------
     def _begin_tx(self, p):
@@ -333,6 +514,11 @@ class RaceControl:
         p.snap = None
         p.written_after_snap = set()
         p.tx_written = set()
+
+    def _end_tx(self, p):
+        if p.tx_written:
+            self.commits.append((p, frozenset(p.tx_written)))
+        self._begin_tx(p)
 
     def _stale(self, p):
         out = set()
@@ -359,16 +545,9 @@ class RaceControl:
             if t in o.locks:
                 return t
         for t in sorted(fp.reads):
-            if t in o.locks and (fp.x_reads or o.locks[t] == 'X'):
+            if t in o.locks and (fp.x_reads or t in fp.xtables or o.locks[t] == 'X'):
                 return t
         return None
-
-    async def _yield(self, p, state):
-        p.state = state
-        p.gate.clear()
-        self.yielded.set()
-        await p.gate.wait()
-        p.state = 'running'
 
     async def _wait(self):
         await asyncio.wait_for(self.yielded.wait(), WAIT_SECONDS)
@@ -380,11 +559,13 @@ class RaceControl:
     async def _party(self, p, make_coro):
         PARTY.set(p)
         p.state = 'running'
+        if self.on_run is not None:
+            self.on_run(p)
         try:
             p.result = await make_coro()
         except RaceInconclusive as e:
             self.inconclusive = self.inconclusive or e.reason
-        except asyncio.CancelledError:
+        except (asyncio.CancelledError, RaceAbort):
             pass
         except BaseException as e:  # noqa: BLE001   (Unsupported, harness errors): re-raised by run()
             p.error = e
@@ -398,12 +579,14 @@ class RaceControl:
 
     async def _abort(self):
         for p in (self.first, self.second):
-            if p.task is not None and not p.task.done():
-                p.task.cancel()
+            p.cancelled = True
+            p.gate.set()
         for p in (self.first, self.second):
             if p.task is not None:
                 try:
-                    await asyncio.wait_for(p.task, WAIT_SECONDS)
+                    await asyncio.wait_for(asyncio.shield(p.task), WAIT_SECONDS)
+                except asyncio.TimeoutError:
+                    p.task.cancel()
                 except (asyncio.CancelledError, Exception):  # noqa: BLE001
                     pass
 
@@ -416,48 +599,55 @@ class RaceControl:
     async def run(self, make_first, make_second):
         """Returns True when the overlapping schedule was executed; False when it was inconclusive (caller restores and runs serially)."""
         a, b = self.first, self.second
-        a.task = asyncio.get_event_loop().create_task(self._party(a, make_first))
+        self.loop = asyncio.get_running_loop()
+        saved_hook = self.engine.stmt_hook
+        self.engine.stmt_hook = self.inner
         try:
-            await self._wait()                                   # first paused, or done
-            if self._check() or self.inconclusive:
-                raise _Stop()
-            b.task = asyncio.get_event_loop().create_task(self._party(b, make_second))
-            await self._wait()                                   # second blocked, or done
-            if self._check() or self.inconclusive:
-                raise _Stop()
-            if b.state == 'blocked':
-                if a.state != 'paused':
-                    raise AssertionError(f'second blocked while first is {a.state}')
-                self._resume(a)
-                await self._wait()                               # first done (a lock cycle makes it inconclusive)
+            a.task = self.loop.create_task(self._party(a, make_first))
+            try:
+                await self._wait()                                   # first paused, or done
                 if self._check() or self.inconclusive:
                     raise _Stop()
-                if a.state != 'done':
-                    raise AssertionError(f'first is {a.state} after resuming')
-                self._resume(b)
-                await self._wait()
+                b.task = self.loop.create_task(self._party(b, make_second))
+                await self._wait()                                   # second blocked, or done
                 if self._check() or self.inconclusive:
                     raise _Stop()
-                if b.state != 'done':
-                    raise AssertionError(f'second is {b.state} after the first finished')
-            else:
-                if a.state == 'paused':
+                if b.state == 'blocked':
+                    if a.state != 'paused':
+                        raise AssertionError(f'second blocked while first is {a.state}')
                     self._resume(a)
+                    await self._wait()                               # first done (a lock cycle makes it inconclusive)
+                    if self._check() or self.inconclusive:
+                        raise _Stop()
+                    if a.state != 'done':
+                        raise AssertionError(f'first is {a.state} after resuming')
+                    self._resume(b)
                     await self._wait()
                     if self._check() or self.inconclusive:
                         raise _Stop()
-                if a.state != 'done' or b.state != 'done':
-                    raise AssertionError(f'race ended with first {a.state}, second {b.state}')
-        except _Stop:
-            await self._abort()
-            err = self._check()
-            if err is not None:
-                raise err
-            return False
-        except BaseException:
-            await self._abort()
-            raise
-        return True
+                    if b.state != 'done':
+                        raise AssertionError(f'second is {b.state} after the first finished')
+                else:
+                    if a.state == 'paused':
+                        self._resume(a)
+                        await self._wait()
+                        if self._check() or self.inconclusive:
+                            raise _Stop()
+                    if a.state != 'done' or b.state != 'done':
+                        raise AssertionError(f'race ended with first {a.state}, second {b.state}')
+            except _Stop:
+                await self._abort()
+                err = self._check()
+                if err is not None:
+                    raise err
+                return False
+            except BaseException:
+                await self._abort()
+                raise
+            return True
+        finally:
+            self.engine.stmt_hook = saved_hook
+            self.pool.shutdown(wait=False)
 
 
 class _Stop(Exception):
